@@ -9,7 +9,7 @@
    proofs/CrashKVProofs.v: TRUSTED for badger, attacked by the SIGKILL harness, not proved. *)
 From Coq Require Import List ZArith Lia Bool Arith.
 From Coq Require Import Strings.Byte.
-From WH Require Import lib.Bytes gen.Extracted model.Vaa model.Db proofs.DbProofs model.CrashKV proofs.CrashKVProofs.
+From WH Require Import lib.Bytes gen.Extracted model.Vaa model.Db proofs.DbProofs model.CrashKV proofs.CrashKVProofs model.WalEngine proofs.WalEngineProofs.
 Import ListNotations.
 Open Scope Z_scope.
 
@@ -94,6 +94,46 @@ Proof.
   unfold ex_h. cbn [starts flat_map app]. repeat (apply Forall_cons; [apply wfb_wf; vm_compute; reflexivity|]). apply Forall_nil.
 Qed.
 
+
+(* ---------------------------------------------------------------- a concrete engine that meets the contract: write-ahead log + memtable
+   (model/WalEngine.v: append the record, apply it to the memtable, only then let Update return; a kill keeps the appended frames,
+   may leave ONE torn frame of an interrupted append, loses memtable and pending calls; Open replays up to the first torn frame
+   and truncates there).  Each step of that engine from a state satisfying its invariant is a step of the crash-KV with the same
+   label, and the invariant is kept: the engine contract is a THEOREM for this engine (what stays trusted for badger is that it
+   is such an engine: frame detection, append-before-return, truncation on Open). *)
+Theorem C16_wal_engine_refines_contract : forall torn st e st',
+  winv st -> wexec true torn st e = Some st' -> exec (wabs st) e = Some (wabs st') /\ winv st'.
+Proof. intros torn st e st' I H. split; [exact (wal_step_refines torn st e st' I H)|exact (wal_step_inv torn st e st' I H)]. Qed.
+
+Theorem C16_wal_engine_histories_refine : forall h st',
+  wrun true winit h = Some st' -> run_evs cinit (map snd h) = Some (wabs st') /\ winv st'.
+Proof. intros h st' H. exact (wal_run_refines h winit st' winv_init H). Qed.
+
+(* hence: an acknowledged store is found by every later lookup in every run of that engine, whatever kills (torn or not) and reopens *)
+Theorem C16_wal_engine_acked_survives : forall h1 n h2 i res v st c0 c1,
+  wrun true winit (h1 ++ (c0, EAck n) :: h2 ++ [(c1, EGet i res)]) = Some st ->
+  nth_error (starts (map snd h1)) n = Some v -> id_of v = i -> Forall wf (starts (map snd (h1 ++ (c0, EAck n) :: h2))) ->
+  exists v', In v' (starts (map snd (h1 ++ (c0, EAck n) :: h2))) /\ id_of v' = i /\ res = Found (marshal v').
+Proof. exact wal_run_acked_survives. Qed.
+
+(* the truncation on Open is load-bearing: the same engine WITHOUT it acknowledges a store, is killed, reopens, and no longer
+   finds the acknowledged VAA (the record sits behind the torn frame an earlier kill left) *)
+Definition ex_wal_bad : list (bool * ev) :=
+  [(false, EStart (ex_v 1 x01)); (true, ECrash 0); (false, EReopen);
+   (false, EStart (ex_v 2 x02)); (false, ECommit 1); (false, EAck 1); (false, ECrash 0); (false, EReopen);
+   (false, EGet (id_of (ex_v 2 x02)) NotFound)].
+Theorem C16_wal_without_truncation_refuted :
+  (exists st, wrun false winit ex_wal_bad = Some st) /\ wrun true winit ex_wal_bad = None.
+Proof. split; [eexists; vm_compute; reflexivity|vm_compute; reflexivity]. Qed.
+
+(* non-vacuity: a run of the truncating engine with a torn kill, a reopen, an acknowledged store and a second kill *)
+Example C16_wal_example :
+  exists st, wrun true winit
+    [(false, EStart (ex_v 1 x01)); (true, ECrash 2); (false, EReopen);
+     (false, EStart (ex_v 2 x02)); (false, ECommit 1); (false, EAck 1); (true, ECrash 0); (false, EReopen);
+     (false, EGet (id_of (ex_v 2 x02)) (Found (marshal (ex_v 2 x02)))); (false, EGet (id_of (ex_v 1 x01)) NotFound)] = Some st.
+Proof. eexists; vm_compute; reflexivity. Qed.
+
 Print Assumptions C16_success_implies_committed.
 Print Assumptions C16_acked_survives.
 Print Assumptions C16_acked_survives_intact.
@@ -106,3 +146,7 @@ Print Assumptions C16_error_means_aborted.
 Print Assumptions C16_unsigned_changes_nothing.
 Print Assumptions C16_plain_history_is_C12_store.
 Print Assumptions C16_engine_acked_survives.
+Print Assumptions C16_wal_engine_refines_contract.
+Print Assumptions C16_wal_engine_histories_refine.
+Print Assumptions C16_wal_engine_acked_survives.
+Print Assumptions C16_wal_without_truncation_refuted.
